@@ -173,7 +173,8 @@ def spend_stream(ctx, rnd, quick):
     reps = 1 if quick else 6
     for kind in S.KINDS:
         for rep in range(reps):
-            s = S.build(rnd, kind, {"n_in": 1} if rep == 0 else None)
+            # rep 0: the only input; rep 1: among other inputs of which one carries a witness (a legacy input in a segwit transaction)
+            s = S.build(rnd, kind, {"n_in": 1} if rep == 0 else ({"n_in": 3, "other_witness": True} if rep == 1 and not kind.startswith("p2tr") else None))
             for ops in histories(rnd, 24, quick)[: (2 if quick else 5)]:
                 cases.append((sline(s.tx, s.txin, ops, R.STD), {"kind": kind}))
     # taproot script path, path lengths 0..3 (and 4, 7 in the thorough tier)
